@@ -809,6 +809,13 @@ func runFilters(t *testing.T, rc *core.RunCtx) {
 	}
 	converged := w.runFor(bound/3, atHonestTip)
 	lossy := rc.Res.Faults["net.drop"]+rc.Res.Faults["net.stall"]+rc.Res.Faults["net.silent"]+rc.Res.Faults["net.close"]+rc.Res.Faults["net.down"] > 0 || unannounced || w.clientCloses > 0
+	for _, p := range w.peers {
+		if p.beh.MaxHeaders > 0 {
+			// a node that answers getheaders with fewer headers than it
+			// has withholds what the protocol says it sends: not lossless
+			lossy = true
+		}
+	}
 	if !converged && !lossy && rc.Prop == "C04" {
 		// Nothing was ever lost, delayed or cut in this run: there is no
 		// excuse for waiting for the next block.
@@ -920,6 +927,21 @@ func nonConvergenceCause(w *World, wt *watcher) string {
 	// without the honest node ever having been asked about that height?
 	for h := 1; h < len(wt.prev.filt); h++ {
 		if wt.prev.blks[h] != nil && wt.prev.filt[h] != w.tree.FilterHeader(wt.prev.blks[h]) {
+			// The batch that committed this header: the first committed
+			// batch whose stop block has this block on its chain. Was the
+			// honest node among its responders?
+			b := wt.prev.blks[h]
+			w.ymu.Lock()
+			commits := append([]chainhash.Hash(nil), w.cfCommits...)
+			w.ymu.Unlock()
+			for _, sh := range commits {
+				if st := w.tree.ByHash[sh]; st != nil && b.IsAncestorOf(st) {
+					if !w.peers[0].cfAnsweredStops[sh] {
+						return "false-filter-header-committed-while-no-honest-node-was-asked"
+					}
+					return "false-filter-header-committed-although-honest-node-answered"
+				}
+			}
 			if !w.peers[0].cfAsked[int32(h)] {
 				return "false-filter-header-committed-while-no-honest-node-was-asked"
 			}
